@@ -11,7 +11,7 @@ HERE = os.path.dirname(os.path.abspath(__file__))
 STATUS = {
  "C01": ("desugarS/B/Else_sound, program_desugar_sound, desugarB_core, elif_order, strRel_* order lemmas, compile_preserves_meaning_partial (Safe), grouping_lost_witness, only_not_regroups (Props/C01, Sem/Core, Sem/Regroup)", "compiled program stdout/stop = re-reading model (restructuring + rustc's grouping of the emitted text + interpreter)", "CPython runs the same program; wrong results are attributed to the grouping finding only if the program is not Safe AND the re-reading model reproduces them; 16 feature templates outside the modelled core (classes + inheritance + overriding, traits with defaults, enums + match, Option/Result/?, f-strings, string methods, dicts, comprehensions, slices, tuples, counting-down ranges, recursion) with seeded constants, CPython as the reference (oracle only)"),
  "C02": ("accepted_body_builds_partial via bind_sim / stmt_sim / block_sim / else_sim / tyE_sim; nested_retype_accepted witness (Props/C02, Sem/CoreTyping)", "checker verdict + build outcome of 9 variants of generated bodies = chkB / rustB", "accepted ⇒ builds; 22 per-construct probes; 24 ill-typed programs (one broken static rule each: if the checker lets one through it must still build); every sampled subset of the derives on a model and a class; multi-file projects through the real `incan build`"),
- "C03": ("every_position_checked (mutual), elif_was_skipped witness, reassign_immutable_rejected / reassign_mutable_accepted / fresh_name_accepted, old_checker_missed_nested, omitted_variant_reported, complete_match_accepted, wrong_argument_reported, wrong_named_argument_reported, fitting_arguments_accepted, surplus_argument_reported, unknown_keyword_reported, missing_argument_reported, missing_required_method_reported, wrong_signature_reported, missing_required_field_reported, wrong_field_type_reported, conforming_adopter_accepted (Props/C03, Sem/Checker)", "single edits at every expression position / statement list of corpus + repository programs; scope depth grid; random matches (variant names related by affix); calls with 1-4 parameters (incl. trait-typed, defaults), positional / keyword arguments, arity edits = validateArgs / surplusArgs / missingParams; generated trait / adopter pairs = conformance", "each edit must be rejected with a diagnostic on the edited lines; documented mutability rule; coverage of match arms; every wrong / surplus / unknown argument reported at that argument, every missing one on the call, and nothing else; adoption errors name exactly the missing / mistyped members, inside the adopter"),
+ "C03": ("every_position_checked (mutual), elif_was_skipped witness, reassign_immutable_rejected / reassign_mutable_accepted / fresh_name_accepted, old_checker_missed_nested, omitted_variant_reported, complete_match_accepted, wrong_argument_reported, wrong_named_argument_reported, fitting_arguments_accepted, mutation_through_immutable_rejected / mutation_through_mutable_accepted (local_lookup_misses_nested_mutation witness), surplus_argument_reported, unknown_keyword_reported, missing_argument_reported, missing_required_method_reported, wrong_signature_reported, missing_required_field_reported, wrong_field_type_reported, conforming_adopter_accepted (Props/C03, Sem/Checker)", "single edits at every expression position / statement list of corpus + repository programs; scope depth grid (7 forms incl. `mut self` calls, field and index assignments = checkMutateThrough); random matches (variant names related by affix); calls with 1-4 parameters (incl. trait-typed, defaults), positional / keyword arguments, arity edits = validateArgs / surplusArgs / missingParams; generated trait / adopter pairs = conformance", "each edit must be rejected with a diagnostic on the edited lines; documented mutability rule; coverage of match arms; every wrong / surplus / unknown argument reported at that argument, every missing one on the call, and nothing else; adoption errors name exactly the missing / mistyped members, inside the adopter"),
  "C04": ("floorDiv/mod = Int.fdiv/fmod for all Int64 pairs, core=std, identity, zero divisor, no other failure", "10 in-process streams: both integer kernels, 4 operand-type pairs of py_div/py_mod/py_floor_div, f64 wrappers; 6 compiled streams: binary `/ // %` and compound `/= //= %=` on int / float / mixed variables through the real pipeline + rustc (zero divisors included)", "Python `//`, `%`, `/`"),
  "C05": ("slice/index/range = CPython for all i64 (saturating step), str=list copy", "9 streams incl. both copies, range with cap, dict_get", "CPython `s[a:b:c]`, `range`; slice syntax on the real parser"),
  "C06": ("const_value_sound, const_type_sound (binConst_type), index_error_agrees, runtime_index_error_reported, slice_step_zero_agrees, static_fold_sound, ok_implies_no_repeat, cycle_is_rejected, never_out_of_fuel, resolution_terminates (Props/C06, Sem/ConstEval)", "checker on `const K = E` (verdict, type, const_values); same expression in a compiled function body; compiled consts; dependency graphs", "Python evaluates the expression; const type = body type; independent cycle DFS"),
@@ -135,7 +135,18 @@ Each miss was answered by widening the generator and, where the mechanism was no
 missing_required_method_reported; classFields / chain_fields_in_declaration_order; inheritedMethods /
 method_call_runs_most_derived_body; emitTok spelling tie and sibling names for C13). Widening them exposed more
 genuine defects, all repaired: `mut self` method on an immutable receiver, `mut` parameters, trait-typed parameters
-accepting anything, cyclic `extends` overflowing the stack, calls never checked for arity. Misses at first run and what was strengthened are
+accepting anything, cyclic `extends` overflowing the stack, calls never checked for arity.
+
+Round 3 (seeds `-5`, `-6`; again told to avoid everything used before) so far: __R3__ stored, __R3MISS__ MISSED at first
+(__R3MISSLIST__). Several of them were caught by the check of a neighbouring property from the start (a list-slice
+change by C05, a float `%` emission change by C04, an arity change by C03) but not by the property they were written
+for: C01 and C02 now also run list-slice, float-arithmetic, loop-element-mutation and field-default templates, C02
+builds every feature template and the repository's own examples, C03's scope grid covers method calls, field and index
+assignments, and its statement rules reach into closures and comprehensions, C20 declares and omits field defaults.
+Answering them exposed further genuine defects, all repaired: field / index assignment through an immutable binding,
+`?` inside a closure of a non-Result function, a module that is also a directory of modules (E0761), literal tuple
+indexing. One round-3 seed (C03-5) stopped being a violation once the closure defect was repaired: the refactoring it
+performs became correct; it is kept with that note. Misses at first run and what was strengthened are
 recorded in each `meta.json` (`detected_by`): C03-1/2, C06-1/2 (only the correspondence broke; oracles added), C08-2,
 C09-2, C11-1/2, C12-2, C14-1/2, C15-2, C16-1/2. Sub-agents also reported pre-existing defects, several of which became
 `fix:` commits (compound field assignment grouping, `elif` scanners, trait-method diagnostic order, newtype hook over
@@ -144,6 +155,9 @@ generic underlying types, unknown slice bound in consts) or findings.
     metas = [json.load(open(m)) for m in sorted(glob.glob(os.path.join(HERE, "seeded", "*", "meta.json")))]
     r2 = [m for m in metas if m.get("round") == 2]
     miss = [m["seed_id"] for m in r2 if str(m.get("detected_by", "")).startswith("MISSED")]
+    r3 = [m for m in metas if m.get("round") == 3]
+    miss3 = [m["seed_id"] for m in r3 if str(m.get("detected_by", "")).startswith("MISSED")]
+    out[-1] = out[-1].replace("__R3__", str(len(r3))).replace("__R3MISSLIST__", ", ".join(miss3) or "none").replace("__R3MISS__", str(len(miss3)))
     out[-1] = out[-1].replace("__R2__", str(len(r2))).replace("__R2MISSLIST__", ", ".join(miss)).replace("__R2MISS__", str(len(miss)))
     out.append("""## Appendix E — hooks
 
